@@ -68,16 +68,78 @@ def table_functions(*tables):
     return out
 
 
+_KNOWN = None
+
+
+def load_known_table():
+    """id -> (signature, set(callees)) of the functions that existed when the tables were reviewed"""
+    global _KNOWN
+    if _KNOWN is None:
+        import os
+        from . import extract
+        p = os.path.join(extract.VERIF, "tables", "known_functions.txt")
+        _KNOWN = {}
+        if os.path.exists(p):
+            for l in open(p):
+                l = l.rstrip("\n")
+                if l and not l.startswith("#"):
+                    f = l.split("\t")
+                    _KNOWN[f[0]] = (f[1] if len(f) > 1 else "", set(f[2].split(" ")) if len(f) > 2 and f[2] else set())
+    return _KNOWN
+
+
 def load_known():
-    import os
-    from . import extract
-    p = os.path.join(extract.VERIF, "tables", "known_functions.txt")
-    out = set()
-    if os.path.exists(p):
-        for l in open(p):
-            l = l.rstrip("\n")
-            if l and not l.startswith("#"):
-                out.add(l)
+    return set(load_known_table())
+
+
+def rename_map(raw_bodies):
+    """{current id -> reviewed id} for reviewed functions that disappeared and have exactly one plausible successor
+    among the functions the tables do not know: same signature and the most similar callee set (rename / move)."""
+    known = load_known_table()
+    present = {}
+    for b in raw_bodies:
+        i = b["id"]
+        if CLOSURE.search(i):
+            continue
+        present[i] = b
+    missing = [k for k in known if k not in present]
+    unknown = [i for i in present if i not in known]
+    if not missing or not unknown:
+        return {}
+
+    def norm_sig(sig):
+        return re.sub(r"'[a-z_]+", "'_", sig or "")
+
+    def callees_of(b):
+        out = set()
+        for blk in b["mir"]["blocks"]:
+            t = blk["term"]
+            if t["k"] == "call" and "fn" in t["func"]:
+                out.add(t["func"]["fn"].get("resolved") or t["func"]["fn"]["path"])
+        return out
+    out = {}
+    taken = set()
+    for k in sorted(missing):
+        sig, cs = known[k]
+        best, second = (None, -1.0), -1.0
+        for u in unknown:
+            if u in taken or norm_sig(present[u].get("sig") or present[u].get("kind")) != norm_sig(sig):
+                continue
+            ucs = callees_of(present[u])
+            # callees inside closures are not in the raw parent body; compare what we have, tolerate that
+            inter = len(cs & ucs)
+            score = inter / float(len(cs | ucs) or 1)
+            # the same last name segment (a move) or a shared module (a rename) is a strong hint
+            if u.rsplit("::", 1)[-1] == k.rsplit("::", 1)[-1] or u.rsplit("::", 1)[0] == k.rsplit("::", 1)[0]:
+                score += 0.5
+            if score > best[1]:
+                second = best[1]
+                best = (u, score)
+            elif score > second:
+                second = score
+        if best[0] is not None and best[1] >= 0.5 and best[1] - second >= 0.2:
+            out[best[0]] = k
+            taken.add(best[0])
     return out
 
 
